@@ -170,3 +170,30 @@ PROPS["C16"] = {
     "level_text": "Bounded symbolic model checking of Bits/Bitmap/dsz.Bits against a branch-free set model; one arbitrary operation from an arbitrary representation-invariant state with fully symbolic 64-bit words is decided by pure bit-vector reasoning (membership of a fresh symbolic number, Len via popcount), covering operation sequences of any length; enumeration order is checked exhaustively over word-boundary values.",
     "level_note": "Trusted: go/ssa, gosym (witness-validated), z3, overlay constructor in /verif/inpkg (falls back to inconclusive if private fields change).",
 }
+
+# ------------------------------------------------------------------------------------------- C14
+c14 = "vh/c14."
+PROPS["C14"] = {
+    "patterns": ["./c14"],
+    "level": "model_checking",
+    "quick": (
+        [J(c14 + "SetOps", n1=a, n2=b) for a in (0, 1, 2, 3) for b in (0, 1, 2, 3)]
+        + [J(c14 + "SetOps", n1=a, n2=0, nil2=1) for a in (0, 2)]
+        + [J(c14 + "UniqueOps", n=n) for n in (0, 1, 2, 3, 4)]
+        + [J(c14 + "IndexOps", n=n) for n in (0, 1, 2, 3, 4)]
+        + [J(c14 + "Flex", maxn=3, maxcap=36, ops=2)]
+    ),
+    "thorough": (
+        [J(c14 + "SetOps", n1=a, n2=b) for a in (0, 1, 2, 3, 4, 5) for b in (0, 1, 2, 3, 4)]
+        + [J(c14 + "SetOps", n1=a, n2=0, nil2=1) for a in (0, 2, 4)]
+        + [J(c14 + "UniqueOps", n=n) for n in (0, 1, 2, 3, 4, 5, 6)]
+        + [J(c14 + "IndexOps", n=n) for n in (0, 1, 2, 3, 4, 5, 6)]
+        + [J(c14 + "Flex", maxn=4, maxcap=40, ops=2), J(c14 + "Flex", maxn=2, maxcap=24, ops=3, cfg={"MaxPaths": 40000000})]
+    ),
+    "bounds": {"quick": "Diff/Intersect(+InPlace): slices of length 0..3 x 0..3 (nil included) with symbolic int elements (every duplicate pattern arises from key-equality forks), dst = nil / fresh / s1[:0]; Unique/UniqueByKey/Filter(+InPlace): length 0..4, key function and predicate uninterpreted; Equal/Index/Contains/SubSlice/Copy/Remove/Chunk/ChunkProcess/Values: length 0..4 with symbolic 64-bit start/end/length/index/chunk-size arguments (all negative and oversized values); FlexSlice: initial length 0..3 with symbolic capacity len..36 (growth and shrink thresholds), 2 arbitrary operations with symbolic indices",
+               "thorough": "lengths up to 5/6, FlexSlice 0..4 elements / capacity <= 40 / 2 operations and 0..2 elements / capacity <= 24 / 3 operations"},
+    "outside": ["longer slices", "element types other than int (the functions are generic and do not inspect T beyond ==)"],
+    "assumptions": ["key function and predicate are arbitrary pure functions (uninterpreted)"],
+    "level_text": "Bounded symbolic model checking of slicez against definitional oracles written in the harness: element values and all integer arguments are symbolic 64-bit values, so every duplicate pattern, every negative/oversized argument and every capacity around FlexSlice's growth/shrink thresholds is covered on some path and decided by the solver.",
+    "level_note": "Trusted: go/ssa, gosym (witness-validated; append growth follows runtime.growslice incl. size classes), z3.",
+}
